@@ -96,16 +96,27 @@ type World struct {
 
 const TCAddr = "10.0.0.7:8091"
 
-type nopLogger struct{}
+type nopLogger struct{ sim *simkit.Sim }
+
+func (l nopLogger) note(level, f string, v ...interface{}) {
+	if l.sim != nil {
+		defer func() { recover() }()
+		l.sim.Note("CLIENT %s: %s", level, fmt.Sprintf(f, v...))
+	}
+}
 
 func (nopLogger) Debug(v ...interface{})              {}
 func (nopLogger) Debugf(fmt string, v ...interface{}) {}
 func (nopLogger) Info(v ...interface{})               {}
-func (nopLogger) Infof(fmt string, v ...interface{})  {}
-func (nopLogger) Warn(v ...interface{})               {}
-func (nopLogger) Warnf(fmt string, v ...interface{})  {}
-func (nopLogger) Error(v ...interface{})              {}
-func (nopLogger) Errorf(fmt string, v ...interface{}) {}
+func (l nopLogger) Infof(f string, v ...interface{}) {
+	if strings.Contains(f, "compare row failed") || strings.Contains(f, "check dirty data failed") {
+		l.note("info", f, v...)
+	}
+}
+func (l nopLogger) Warn(v ...interface{})             { l.note("warn", "%v", v) }
+func (l nopLogger) Warnf(f string, v ...interface{})  { l.note("warn", f, v...) }
+func (l nopLogger) Error(v ...interface{})            { l.note("error", "%v", v) }
+func (l nopLogger) Errorf(f string, v ...interface{}) { l.note("error", f, v...) }
 func (nopLogger) Panic(v ...interface{})              {}
 func (nopLogger) Panicf(fmt string, v ...interface{}) {}
 func (nopLogger) Fatal(v ...interface{})              {}
@@ -139,9 +150,9 @@ type BootCfg struct {
 // a fresh coordinator model through a simulated session.
 func bootRemoting(seed uint64, tape *simkit.Tape, cfg BootCfg, ncfg simnet.Config) *World {
 	gxtime.VerifUseStdTimers = true
-	log.SetLogger(nopLogger{})
 	uuid.SetRand(&seededReader{g: simkit.NewGen(seed ^ 0x55aa)})
 	sim := simkit.NewSim(tape)
+	log.SetLogger(nopLogger{sim})
 
 	discovery.InitRegistry(&discovery.ServiceConfig{}, &discovery.RegistryConfig{Type: "file"})
 	gcfg := &remoteConfig.Config{ReconnectInterval: 0, ConnectionNum: 1, LoadBalanceType: cfg.LoadBalance}
